@@ -21,12 +21,14 @@ tvars == <<vars, tid, l>>
 Ev == Traces[tid].events
 SetOf(s) == {s[i] : i \in 1..Len(s)}
 
-CfgIs(t) == LET c == Traces[t].cfg IN
-            <<SetOf(c.apis), [m \in RPCs |-> c.rulecode[m]], c.own, SetOf(c.transports), c.legacy, c.tmpl, SetOf(c.clients)>>
-ResetFor(t) == /\ cfgvars' = CfgIs(t)
+C(t) == Traces[t].cfg
+RulesOf(t) == [m \in RPCs |-> C(t).rulecode[m]]
+ResetFor(t) == /\ apis' = SetOf(C(t).apis) /\ rules' = RulesOf(t) /\ own' = C(t).own /\ transports' = SetOf(C(t).transports)
+               /\ legacy' = C(t).legacy /\ tmpl' = C(t).tmpl /\ clients' = SetOf(C(t).clients)
                /\ phase' = "generated" /\ exposed' = [c \in {"sync", "asyncio"} |-> {}] /\ call' = NoCall
 TInit == /\ tid = 1 /\ l = 1 /\ TLCSet(1, 0) /\ TLCSet(2, <<0, 0>>)
-         /\ cfgvars = CfgIs(1)
+         /\ apis = SetOf(C(1).apis) /\ rules = RulesOf(1) /\ own = C(1).own /\ transports = SetOf(C(1).transports)
+         /\ legacy = C(1).legacy /\ tmpl = C(1).tmpl /\ clients = SetOf(C(1).clients)
          /\ phase = "generated" /\ exposed = [c \in {"sync", "asyncio"} |-> {}] /\ call = NoCall
 
 IsEvent(e) == tid <= N /\ l <= Len(Ev) /\ Ev[l].ev = e /\ l' = l + 1 /\ tid' = tid
